@@ -6,6 +6,10 @@ TLC enumerates the (name, cfg) pairs of the pool and the full route x sink x san
 (ii) end to end: the real CLI (`st run`, subprocess) against the loopback server, a unique canary per route, every report format,
      sanitize on / off / custom keys / custom markers; stdout and every artifact are scanned for each canary (plain, percent-encoded,
      base64 at any alignment); the boolean matrix present[route, sink] is judged by spec/SanitizeJudge.tla.
+Two further family dimensions of Sanitize.tla: the SHAPE of URL userinfo (user:password / bare token / token: / :password - unit
+level on sanitize_url, Case.as_curl_command and the cassette command line; end to end on --url and the schema location) and the FATE
+of the request (answered / no-response: the loopback server drops the connection of every API request of the run; every report kind
+is scanned, the expected matrix is ExpectedF(..., fate)).
 """
 from __future__ import annotations
 
@@ -48,6 +52,8 @@ SEPARATORS = {"semicolon-space": "; ", "semicolon": ";"}
 NOT_GENERATED_HEADERS = {"accept", "content-type", "authorization", "cookie", "set-cookie", "user-agent", "location", "etag"}
 NOT_RESPONSE_HEADERS = {"content-type", "content-length", "set-cookie", "cookie", "location"}
 CANARY = "Cnry7Secret"  # unit level only
+USERINFO = {"user-password": "user:%s", "token-only": "%s", "token-empty-password": "%s:", "empty-user-password": ":%s"}
+FATES = ["answered", "no-response"]
 
 
 def text(cps: list[int]) -> str:
@@ -73,7 +79,8 @@ def unit_observe(case: dict) -> list[dict]:
     rows = []
 
     def row(form: str, rendered: str, header: str = "-") -> None:
-        rows.append({"name": case["name"], "cfg": kind, "form": form, "header": header, "redacted": CANARY not in rendered})
+        rows.append({"name": case["name"], "cfg": kind, "form": form, "header": header, "shape": "-", "route": "-",
+                     "redacted": CANARY not in rendered})
 
     d = {name: [CANARY], "X-Other": ["v"]}
     sanitize_value(d, config=cfg)
@@ -103,16 +110,18 @@ def unit_observe(case: dict) -> list[dict]:
     return rows
 
 
-def unit_global(kind: str, names: list[list[int]]) -> list[dict]:
-    """The module-level configuration path (configure() + default config) and Case.as_curl_command - run in a child process."""
+def unit_global(kind: str, names: list[list[int]], userinfo: list[dict] | None = None) -> list[dict]:
+    """The module-level configuration path (configure() + default config) and Case.as_curl_command - run in a child process.
+    `userinfo` = the (route, shape) elements of the USERINFO family of this configuration: the URL is rendered by sanitize_url (several
+    URL contexts), by Case.as_curl_command (base URL of that shape) and by the command line echoed into the cassettes."""
     code = r"""
 import json, sys
 import schemathesis
 from schemathesis.core.output.sanitization import sanitize_value, sanitize_url
-kind, kw, names, canary = json.loads(sys.stdin.read())
+kind, kw, names, canary, userinfo, shapes = json.loads(sys.stdin.read())
 if kw: schemathesis.sanitization.configure(**kw)
-schema = schemathesis.openapi.from_dict({"openapi": "3.0.2", "info": {"title": "t", "version": "1"},
-    "paths": {"/a": {"get": {"responses": {"200": {"description": "ok"}}}}}})
+RAW = {"openapi": "3.0.2", "info": {"title": "t", "version": "1"}, "paths": {"/a": {"get": {"responses": {"200": {"description": "ok"}}}}}}
+schema = schemathesis.openapi.from_dict(RAW)
 schema.base_url = "http://user:%s@h.example" % canary
 op = schema["/a"]["GET"]
 rows = []
@@ -120,18 +129,42 @@ for cps in names:
     name = "".join(map(chr, cps))
     d = {name: [canary]}
     sanitize_value(d)
-    rows.append({"name": cps, "cfg": kind, "form": "global-config", "header": "-", "redacted": canary not in json.dumps(d)})
+    rows.append({"name": cps, "cfg": kind, "form": "global-config", "header": "-", "shape": "-", "route": "-", "redacted": canary not in json.dumps(d)})
     try:
         cmd = op.Case(headers={name: canary}, query={name: canary}, cookies={name: canary}).as_curl_command()
     except Exception as exc:
         continue
     # userinfo of the base url must be gone as well; report separately
     head, _, url = cmd.rpartition(" ")
-    rows.append({"name": cps, "cfg": kind, "form": "curl-api", "header": "-", "redacted": canary not in head and ("=" + canary) not in url})
-    rows.append({"name": cps, "cfg": kind, "form": "curl-api-userinfo", "header": "-", "redacted": (canary + "@") not in url})
+    rows.append({"name": cps, "cfg": kind, "form": "curl-api", "header": "-", "shape": "-", "route": "-", "redacted": canary not in head and ("=" + canary) not in url})
+    rows.append({"name": cps, "cfg": kind, "form": "curl-api-userinfo", "header": "-", "shape": "-", "route": "-", "redacted": (canary + "@") not in url})
+from schemathesis.cli.commands.run.handlers import cassettes
+for u in userinfo:
+    ui = shapes[u["shape"]] % canary
+    def urow(form, rendered):
+        rows.append({"name": [], "cfg": kind, "form": form, "header": "-", "shape": u["shape"], "route": u["route"], "redacted": canary not in rendered})
+    if u["route"] == "url-userinfo":   # the base URL of the API
+        for k, base in enumerate(("https://%s@api.example.com/v1", "http://%s@127.0.0.1:8080", "http://%s@[::1]:8080/api")):
+            urow("userinfo-sanitize-url-%d" % k, sanitize_url(base % ui + "/a?page=1"))
+        fresh = schemathesis.openapi.from_dict(RAW)   # the operations of a schema remember the base URL they were built with
+        fresh.base_url = "https://%s@api.example.com/v1" % ui
+        cmd = fresh["/a"]["GET"].Case(query={"page": "1"}).as_curl_command()
+        assert "api.example.com/v1/a" in cmd, cmd
+        urow("userinfo-curl-api", cmd)
+        argv = ["st", "run", "http://api.example.com/openapi.json", "--url", "https://%s@api.example.com/v1" % ui, "--report", "vcr"]
+    else:                              # the location the schema is loaded from
+        for k, loc in enumerate(("https://%s@api.example.com/openapi.json", "http://%s@127.0.0.1:8080/openapi.json?v=2", "https://%s@api.example.com")):
+            urow("userinfo-sanitize-url-%d" % k, sanitize_url(loc % ui))
+        argv = ["st", "run", "https://%s@api.example.com/openapi.json" % ui, "--report", "vcr"]
+    saved = sys.argv
+    try:
+        sys.argv = argv
+        urow("userinfo-command-line", cassettes.get_command_representation(sanitize=True))
+    finally:
+        sys.argv = saved
 print(json.dumps(rows))
 """
-    p = subprocess.run(["/venv/bin/python", "-c", code], input=json.dumps([kind, CUSTOM[kind], names, CANARY]), capture_output=True,
+    p = subprocess.run(["/venv/bin/python", "-c", code], input=json.dumps([kind, CUSTOM[kind], names, CANARY, userinfo or [], USERINFO]), capture_output=True,
                        text=True, timeout=600)
     if p.returncode != 0:
         raise RuntimeError("unit_global child failed: " + p.stderr[-2000:])
@@ -302,8 +335,38 @@ def plan_runs(ctx: Ctx, pool: list[str], default_keys: list[str]) -> list[dict]:
     # without cookie / set-cookie among the keys the Cookie header is redacted cookie by cookie: every default key at every position
     runs += [key_run("no-cookie-keys", True, r) for r in ([ctx.seed % 3] if ctx.quick else range(3))]
     runs.append(key_run("default", False, ctx.seed % 3))
+    # the SHAPE of URL userinfo (family USERINFO of Sanitize.tla): --url and the schema location
+    shapes = [sh for sh in USERINFO if sh != "user-password"]
+
+    def userinfo_run(cfg, sanitize, shape, **extra):
+        return dict({"mode": "userinfo", "cfg": cfg, "sanitize": sanitize,
+                     "slots": [{"route": "url-userinfo", "name": "Authorization", "shape": shape}]}, **extra)
+
+    def shaped_location_run(cfg, sanitize, shape, names):
+        r = location_run(cfg, sanitize, names)
+        r["slots"][0]["shape"] = shape
+        return r
+
+    rot = shapes[ctx.seed % len(shapes):] + shapes[:ctx.seed % len(shapes)]
+    runs += [userinfo_run("default", True, "token-only"), userinfo_run("default", True, rot[1] if rot[1] != "token-only" else rot[2]),
+             shaped_location_run("default", True, "token-only", ["api_key", "page"])]
+    # the FATE of the request: every API request of the run is dropped without a response (transport-level fault) - every route group
+    runs += [headers_run("default", True, "Authorization", "X-API-Key", "api_key", "sessionid", "sid", "X-Auth-Token", fault=True),
+             headers_run("default", False, "Authorization", "X-API-Key", "api_key", "sessionid", "sid", "X-Auth-Token", fault=True),
+             dict(key_run("default", True, ctx.seed % 3), fault=True),
+             {"mode": "auth", "cfg": "default", "sanitize": True, "slots": [{"route": "auth-basic", "name": "Authorization"}], "fault": True},
+             userinfo_run("default", True, rot[0], fault=True),
+             dict(location_run("default", True, ["api_key", "page"]), fault=True)]
     if ctx.quick:
         return runs
+    runs += [userinfo_run(cfg, sanitize, sh) for sh in shapes for cfg, sanitize in (("default", True), ("custom-keys", True), ("default", False))]
+    runs += [shaped_location_run("default", sanitize, sh, ["api_key", "page"]) for sh in shapes for sanitize in (True, False)]
+    runs += [userinfo_run("default", True, sh, fault=True) for sh in USERINFO]
+    runs += [headers_run("custom-keys", True, "X-Custom", "X-Trace", "token", "Kee", "PHPSESSID", "Set-Cookie", fault=True),
+             headers_run("custom-markers", True, "X-Zeta-Id", "Token-X", "api_key", "zetacookie", "sid", "X-Auth-Token", fault=True),
+             headers_run("default", True, "X-Trace", "X-Request-Id", "page", "theme", "lang", "ETag", fault=True),
+             dict(key_run("no-cookie-keys", True, 0), fault=True), dict(key_run("custom-markers", True, 1), fault=True),
+             dict(key_run("default", False, 2), fault=True)]
     runs += [{"mode": "auth", "cfg": "default", "sanitize": False, "slots": [{"route": "auth-basic", "name": "Authorization"}]},
              {"mode": "userinfo", "cfg": "default", "sanitize": False, "slots": [{"route": "url-userinfo", "name": "Authorization"}]},
              {"mode": "auth", "cfg": "custom-keys", "sanitize": True, "slots": [{"route": "auth-basic", "name": "Authorization"}]},
@@ -321,6 +384,7 @@ def e2e_run(item: tuple[int, dict]) -> dict:
     idx, run = item
     rng = random.Random(1000 + idx)
     mode = run["mode"]
+    fault = bool(run.get("fault"))
     slots = [dict(sl, k=k, canary="cq%ds%d%sz" % (idx, k, "".join(rng.choice("bcdfghjkmnpqrstvwxz") for _ in range(10))))
              for k, sl in enumerate(run["slots"])]
     by_route: dict[str, list[dict]] = {}
@@ -352,6 +416,8 @@ def e2e_run(item: tuple[int, dict]) -> dict:
     def behaviour(rec):
         if rec.path.endswith("/openapi.json"):
             return 200, [("Content-Type", "application/json")], json.dumps(schema).encode()
+        if fault:  # transport-level fault: every request but the schema download is dropped without a response
+            raise ConnectionAbortedError()
         if rec.path.endswith("/items"):
             return 500, resp_headers, b'{"error": "boom"}'
         return 404, [("Content-Type", "application/json")], b"{}"
@@ -361,8 +427,8 @@ def e2e_run(item: tuple[int, dict]) -> dict:
         with LoopbackServer(behaviour) as srv:
             location = srv.base_url + "/openapi.json"
             if mode == "schema-location":  # the credentials travel in the URL the schema is loaded from
-                location = "http://user:%s@127.0.0.1:%d/openapi.json?%s" % (
-                    by_route["schema-userinfo"][0]["canary"], srv.port,
+                location = "http://%s@127.0.0.1:%d/openapi.json?%s" % (
+                    USERINFO[by_route["schema-userinfo"][0].get("shape", "user-password")] % by_route["schema-userinfo"][0]["canary"], srv.port,
                     "&".join("%s=%s" % (quote(sl["name"], safe=""), sl["canary"]) for sl in by_route.get("schema-query", [])))
             cmd = [ST, "run", location, "--report", "junit,vcr,har", "--report-dir", d, "--phases", "fuzzing",
                    "--max-examples", "2", "--checks", "not_a_server_error", "--workers", "1", "--seed", "1",
@@ -374,7 +440,7 @@ def e2e_run(item: tuple[int, dict]) -> dict:
             for sl in by_route.get("auth-basic", []):
                 cmd += ["--auth=user:" + sl["canary"]] if eq else ["--auth", "user:" + sl["canary"]]
             for sl in by_route.get("url-userinfo", []):
-                cmd += ["--url", "http://user:%s@127.0.0.1:%d" % (sl["canary"], srv.port)]
+                cmd += ["--url", "http://%s@127.0.0.1:%d" % (USERINFO[sl.get("shape", "user-password")] % sl["canary"], srv.port)]
             env = dict(os.environ, COLUMNS="400", NO_COLOR="1", TERM="dumb")
             env.pop("SCHEMATHESIS_HOOKS", None)
             if CUSTOM[run["cfg"]] is not None:
@@ -384,7 +450,10 @@ def e2e_run(item: tuple[int, dict]) -> dict:
             p = subprocess.run(cmd, capture_output=True, text=True, cwd=d, env=env, timeout=600)
             log = srv.snapshot()
         out = p.stdout + "\n" + p.stderr
-        if "Reproduce with" not in out or p.returncode != 1:
+        if fault:
+            if "Network Error" not in out or "Reproduce with" in out or p.returncode != 1:
+                return {"error": "CLI run %d did not report the scripted network error (rc=%s): %s" % (idx, p.returncode, out[-1500:])}
+        elif "Reproduce with" not in out or p.returncode != 1:
             return {"error": "CLI run %d did not report the scripted failure (rc=%s): %s" % (idx, p.returncode, out[-1500:])}
         lines = out.splitlines()
         sinks = {"curl": "\n".join(l for l in lines if "curl -X" in l), "console": "\n".join(l for l in lines if "curl -X" not in l)}
@@ -396,6 +465,8 @@ def e2e_run(item: tuple[int, dict]) -> dict:
                 return {"error": "CLI run %d wrote no %s" % (idx, fname)}
         # which slots were really exercised: the server log is the ground truth
         reqs = [r for r in log if r.path.endswith("/items")]
+        if fault and (not reqs or any(r.status != -1 for r in reqs)):
+            return {"error": "CLI run %d: the scripted fault did not hit every API request: %s" % (idx, [r.status for r in reqs])}
         sent = "\n".join(r.target + "\n" + "\n".join("%s: %s" % (k, v) for k, v in r.headers) for r in reqs)
         sent_schema = "\n".join(r.target + "\n" + "\n".join("%s: %s" % (k, v) for k, v in r.headers)
                                 for r in log if r.path.endswith("/openapi.json"))
@@ -422,17 +493,22 @@ def e2e_run(item: tuple[int, dict]) -> dict:
         routes, not_exercised = [], []
         for sl in slots:
             if sl["route"] in ("resp-set-cookie", "resp-header"):
-                exercised = bool(reqs) and any(sl["canary"] in v for _, v in resp_headers)
+                exercised = not fault and bool(reqs) and any(sl["canary"] in v for _, v in resp_headers)
+            elif sl.get("shape", "user-password") != "user-password":
+                # userinfo without a usable user:password pair is not turned into an Authorization header by the transport; the
+                # secret is what the user typed on the command line - exercised as soon as that URL was really used
+                exercised = bool(reqs) if sl["route"] == "url-userinfo" else bool(sent_schema)
             elif sl["route"].startswith("schema-"):
                 exercised = occurs(sl["canary"], sent_schema)
             else:
                 exercised = occurs(sl["canary"], sent)
             if exercised:
-                routes.append({"route": sl["route"], "name": [ord(c) for c in sl["name"]], "k": sl["k"],
+                routes.append({"route": sl["route"], "name": [ord(c) for c in sl["name"]], "k": sl["k"], "shape": sl.get("shape", "-"),
                                "present": {s: occurs(sl["canary"], sinks[s]) for s in SINKS}})
             else:
                 not_exercised.append(sl["route"])
         return {"cfg": run["cfg"], "sanitize": run["sanitize"], "mode": mode, "routes": routes, "idx": idx, "dead": dead,
+                "fate": FATES[fault],
                 "not_exercised": not_exercised, "canary": {sl["k"]: sl["canary"] for sl in slots},
                 "excerpt": {s: _excerpts(sinks[s], [sl["canary"] for sl in slots]) for s in SINKS}}
     finally:
@@ -544,7 +620,9 @@ def name_class(name: str, cfg: str, sens: dict, route: str = "") -> str:
 
 def judge(ctx: Ctx, units: list[dict], runs: list[dict], tag: str = "obs", hists: list[dict] | None = None):
     f = ctx.path("%s.json" % tag)
-    tlc.write_json(f, {"units": units, "runs": [{"cfg": r["cfg"], "sanitize": r["sanitize"], "dead": r.get("dead", []), "routes": r["routes"]} for r in runs],
+    tlc.write_json(f, {"units": [dict({"shape": "-", "route": "-"}, **u) for u in units],
+                       "runs": [{"cfg": r["cfg"], "sanitize": r["sanitize"], "dead": r.get("dead", []), "fate": r.get("fate", "answered"),
+                                 "routes": [dict({"shape": "-"}, **x) for x in r["routes"]]} for r in runs],
                        "hists": [{"steps": h["steps"], "outs": h["outs"]} for h in hists or []]})
     found: list = []
     res = tlc.require_ok(tlc.run_tlc("SanitizeJudge", "SanitizeJudge.cfg", env={"OBS_FILE": f}, workers=4, timeout=1800,
@@ -565,19 +643,23 @@ def run(ctx: Ctx) -> Outcome:
     names: list[dict] = []
     flows: list[dict] = []
     cookie_family: list[dict] = []
+    userinfo_family: list[dict] = []
     res = tlc.require_ok(tlc.run_tlc("Sanitize", "Sanitize.cfg", workers=1, timeout=1800, want_prints=False,
-                                     on_json=lambda t, d: {"NAME": names, "FLOW": flows, "COOKIE": cookie_family}[t].append(d)),
+                                     on_json=lambda t, d: {"NAME": names, "FLOW": flows, "COOKIE": cookie_family, "USERINFO": userinfo_family}[t].append(d)),
                          "Sanitize enumeration")
     for inv in res.violated:
         out.violations.append(Violation("C15:spec:" + inv, "design invariant %s violated in Sanitize.tla" % inv,
                                         {"kind": "spec", "invariant": inv, "trace": res.counterexample[:60]}))
     sens = {(text(n["name"]).lower(), n["cfg"]): n["sensitive"] for n in names}
     info = {(text(n["name"]), n["cfg"]): n for n in names}
-    flow = {(f["route"], f["sink"], f["sanitize"], f["sens"], f["omitted"]): f["expected"] for f in flows}
+    flow = {(f["route"], f["sink"], f["sanitize"], f["sens"], f["omitted"], f["fate"]): f["expected"] for f in flows}
+    userinfo_exp = {(u["route"], u["shape"], u["cfg"]): u["redacted"] for u in userinfo_family}
+    if set(u["shape"] for u in userinfo_family) != set(USERINFO):
+        raise tlc.TLCFailure("the userinfo shapes of Sanitize.tla and of the driver differ")
 
-    def expected(name: str, cfg: str, route: str, sink: str, sanitize: bool) -> str:
+    def expected(name: str, cfg: str, route: str, sink: str, sanitize: bool, fate: str = "answered") -> str:
         n = info[(name, cfg)]
-        return flow[(route, sink, sanitize, n["carrier"][route], n["omitted"])]
+        return flow[(route, sink, sanitize, n["carrier"][route], n["omitted"], fate)]
 
     pool = []
     for n in names:
@@ -591,7 +673,8 @@ def run(ctx: Ctx) -> Outcome:
     t1 = time.time()
     units = [row for rows in common.pmap(unit_observe, names) for row in rows]
     with ThreadPoolExecutor(3) as ex:
-        for rows in ex.map(lambda k: unit_global(k, [[ord(c) for c in p] for p in pool]), list(CUSTOM)):
+        for rows in ex.map(lambda k: unit_global(k, [[ord(c) for c in p] for p in pool], [u for u in userinfo_family if u["cfg"] == k]),
+                           list(CUSTOM)):
             units += rows
     t_unit = time.time() - t1
 
@@ -645,7 +728,9 @@ def run(ctx: Ctx) -> Outcome:
 
     # driver-side comparison against the exported expectations; must coincide with TLC's verdict
     for i, u in enumerate(units):
-        if u["header"] != "-":
+        if u["shape"] != "-":
+            want = userinfo_exp[(u["route"], u["shape"], u["cfg"])]
+        elif u["header"] != "-":
             _, pos, sep_name = u["form"].split("-", 2)
             want = cookie_exp[(text(u["name"]), u["cfg"], "gen-cookie" if u["header"] == "cookie" else "resp-set-cookie", pos, sep_name)]
         else:
@@ -662,7 +747,7 @@ def run(ctx: Ctx) -> Outcome:
                 if s in r.get("dead", []):
                     continue
                 n_cells += 1
-                e = expected(text(x["name"]), r["cfg"], x["route"], s, r["sanitize"])
+                e = expected(text(x["name"]), r["cfg"], x["route"], s, r["sanitize"], r.get("fate", "answered"))
                 n_nontrivial += e == "absent"
                 if e == "absent" and x["present"][s]:
                     mine.add((x["route"], s, "leak", x["k"]))
@@ -676,13 +761,20 @@ def run(ctx: Ctx) -> Outcome:
         u = units[i]
         for form, _, direction in sorted(bad):
             out.violations.append(Violation(
-                "C15:unit:%s:%s:%s" % (form, direction, "userinfo" if form == "curl-api-userinfo" else name_class(text(u["name"]), u["cfg"], sens)),
-                "%s(%r) under %s config: %s" % (form, text(u["name"]), u["cfg"], direction), {"kind": "unit", "unit": u}))
+                "C15:unit:%s:%s:%s" % (re.sub(r"-\d+$", "", form) if u["shape"] != "-" else form, direction, "userinfo:" + u["shape"] if u["shape"] != "-" else
+                                       "userinfo" if form == "curl-api-userinfo" else name_class(text(u["name"]), u["cfg"], sens)),
+                "%s(%r) under %s config: %s" % (form, u["route"] + " of shape " + u["shape"] if u["shape"] != "-" else text(u["name"]),
+                                                u["cfg"], direction), {"kind": "unit", "unit": u}))
     for i, bad in sorted(run_bad.items()):
         r = observed[i]
         for route, sink, direction, k in sorted(bad):
-            nm = next(text(x["name"]) for x in r["routes"] if x["k"] == k and x["route"] == route)
+            slot = next(x for x in r["routes"] if x["k"] == k and x["route"] == route)
+            nm = text(slot["name"])
             cls = "userinfo" if route in ("url-userinfo", "schema-userinfo") else name_class(nm, r["cfg"], sens, route)
+            if slot.get("shape", "-") not in ("-", "user-password"):
+                cls += ":" + slot["shape"]
+            if r.get("fate", "answered") != "answered":
+                cls += ":" + r["fate"]
             if r["mode"].startswith("api:"):
                 cls += ":" + r["mode"][4:]
                 rep = {"kind": "api", "cfg": r["cfg"], "sanitize": r["sanitize"], "item": r["item"]}
@@ -690,7 +782,8 @@ def run(ctx: Ctx) -> Outcome:
                 rep = {"kind": "e2e", "run": plan[r["idx"]], "idx": r["idx"]}
             out.violations.append(Violation(
                 "C15:%s:%s:%s:%s" % (route, sink, direction, cls),
-                "run #%d (%s, cfg=%s, sanitize=%s): canary of route %s (carrier %r) %s %s; e.g. %s" % (
+                ("run #%d (%s, cfg=%s, sanitize=%s" + (", every request dropped without a response" if r.get("fate") == "no-response" else "")
+                 + "): canary of route %s (carrier %r) %s %s; e.g. %s") % (
                     r["idx"], r["mode"], r["cfg"], r["sanitize"], route, nm,
                     "found in" if direction == "leak" else "not found in", sink,
                     [e for e in r["excerpt"][sink] if r["canary"][k] in e][:1]), rep))
@@ -709,6 +802,10 @@ def run(ctx: Ctx) -> Outcome:
         "judge_states": jres.distinct,
         "evaluations": len(units) + sum(len(r["routes"]) * len(SINKS) for r in observed),
         "distinct_nontrivial": sum(1 for n in names if n["sensitive"]) + n_nontrivial,
+        "userinfo_shape_family": len(userinfo_family), "userinfo_shape_observations": sum(1 for u in units if u["shape"] != "-"),
+        "e2e_runs_without_response": sum(1 for r in observed if r.get("fate") == "no-response"),
+        "e2e_cells_judged_without_response": sum(len(r["routes"]) * (len(SINKS) - len(r.get("dead", []))) for r in observed if r.get("fate") == "no-response"),
+        "e2e_slots_with_nonstandard_userinfo": sum(1 for r in observed for x in r["routes"] if x.get("shape", "-") not in ("-", "user-password")),
         "name_cfg_pairs": len(names), "cookie_position_family": len(cookie_family),
         "cookie_position_observations": sum(1 for u in units if u["header"] != "-"), "flow_matrix_cells": len(flows), "unit_observations": len(units),
         "e2e_runs": len(plan), "sinks_not_wellformed_not_judged": len(dead_sinks), "api_channel_observations": len(api_obs), "default_keys": len(default_keys),
@@ -721,11 +818,12 @@ def run(ctx: Ctx) -> Outcome:
                       for u in common.sample(rng, units, 3)],
         "rule": "every (name, cfg) of the pool in Sanitize.tla x every value shape of the sanitizer functions (exhaustive); end to end: "
                 "the planned CLI runs (every default key x 3 spellings in header, query and cookie position under default and custom-marker "
-                "configurations; one run per configuration/route group; thorough: every pool name on the routes) and the Python API channel "
+                "configurations; one run per configuration/route group; URL userinfo of every shape at unit level, token-only + one rotating shape "
+                "end to end; the request route groups once more with every API request dropped without a response; thorough: every pool name on the routes) and the Python API channel "
                 "(requests auth objects under pool names); non-trivial = "
                 "the spec expects the secret to be absent",
         "exhaustive": True,
-        "constants": {"pool": len(pool), "cfgs": list(CUSTOM), "routes": ROUTES, "sinks": SINKS},
+        "constants": {"pool": len(pool), "cfgs": list(CUSTOM), "routes": ROUTES, "sinks": SINKS, "userinfo_shapes": list(USERINFO), "fates": FATES},
         "tlc_enumeration_s": round(res.wall_s, 1), "unit_s": round(t_unit, 1), "e2e_s": round(t_e2e, 1), "tlc_judge_s": round(jres.wall_s, 1),
     }
     out.assumptions = [
@@ -736,6 +834,8 @@ def run(ctx: Ctx) -> Outcome:
         "Python API channel: curl sink = Case.as_curl_command() + the failure report of call_and_validate(); the other sinks are not exercised there",
         "custom configurations are installed through SCHEMATHESIS_HOOKS + schemathesis.sanitization.configure (replace semantics)",
         "which sink shows which field when nothing is redacted (MustCarry) is part of the specification",
+        "no-response = the loopback server closes the connection of every request except the schema download (requests.ConnectionError); timeouts are not scripted",
+        "URL userinfo of a non user:password shape never reaches the wire as a header; it counts as exercised when the URL that carries it was used for a request",
     ]
     return out
 
@@ -752,9 +852,10 @@ def replay(ctx: Ctx, data: dict) -> Outcome:
     set_default_keys()
     if data.get("kind") == "unit":
         u = data["unit"]
-        rows = unit_observe({"name": u["name"], "cfg": u["cfg"]}) if not u["form"].startswith(("global", "curl-api")) else \
-            unit_global(u["cfg"], [u["name"]])
-        rows = [r for r in rows if r["form"] == u["form"]]
+        rows = unit_observe({"name": u["name"], "cfg": u["cfg"]}) if not u["form"].startswith(("global", "curl-api", "userinfo")) else \
+            unit_global(u["cfg"], [u["name"]] if u.get("shape", "-") == "-" else [],
+                        [] if u.get("shape", "-") == "-" else [{"route": u["route"], "shape": u["shape"], "cfg": u["cfg"]}])
+        rows = [r for r in rows if r["form"] == u["form"] and r.get("shape", "-") == u.get("shape", "-")]
         bad, _, _ = judge(ctx, rows, [], "replay")
         for i, v in bad.items():
             for form, _, direction in v:
@@ -786,11 +887,15 @@ def selftest(ctx: Ctx) -> bool:
              {"name": name, "cfg": "default", "form": "header-list", "header": "-", "redacted": False},
              {"name": [ord(c) for c in "Accept"], "cfg": "default", "form": "header-list", "header": "-", "redacted": True},
              {"name": [ord(c) for c in "PHPSESSID"], "cfg": "no-cookie-keys", "form": "cookie-last-semicolon-space", "header": "cookie", "redacted": False},
-             {"name": [ord(c) for c in "theme"], "cfg": "no-cookie-keys", "form": "cookie-last-semicolon-space", "header": "cookie", "redacted": False}]
+             {"name": [ord(c) for c in "theme"], "cfg": "no-cookie-keys", "form": "cookie-last-semicolon-space", "header": "cookie", "redacted": False},
+             {"name": [], "cfg": "default", "form": "userinfo-curl-api", "header": "-", "shape": "token-only", "route": "url-userinfo", "redacted": True},
+             {"name": [], "cfg": "custom-keys", "form": "userinfo-curl-api", "header": "-", "shape": "token-only", "route": "url-userinfo", "redacted": False}]
     present = {s: False for s in SINKS}
     runs = [{"cfg": "default", "sanitize": True, "dead": [], "routes": [{"route": "user-header", "name": name, "k": 0, "present": present}]},
             {"cfg": "default", "sanitize": True, "dead": [], "routes": [{"route": "user-header", "name": name, "k": 0, "present": dict(present, vcr=True)}]},
-            {"cfg": "default", "sanitize": False, "dead": ["har"], "routes": [{"route": "user-header", "name": name, "k": 0, "present": dict(present, vcr=True)}]}]
+            {"cfg": "default", "sanitize": False, "dead": ["har"], "routes": [{"route": "user-header", "name": name, "k": 0, "present": dict(present, vcr=True)}]},
+            {"cfg": "default", "sanitize": True, "dead": [], "fate": "no-response", "routes": [{"route": "user-header", "name": name, "k": 0, "present": dict(present, har=True)}]},
+            {"cfg": "default", "sanitize": False, "dead": [], "fate": "no-response", "routes": [{"route": "user-header", "name": name, "k": 0, "present": dict(present, har=True, vcr=True)}]}]
     xc = [ord(c) for c in "X-Custom"]
     steps = [{"kind": "S", "op": "-", "name": xc}, {"kind": "C", "op": "configure-keys", "name": []}, {"kind": "S", "op": "-", "name": xc}]
     good_h = {"steps": steps, "outs": [{"step": 1, "form": "url", "redacted": False}, {"step": 3, "form": "url", "redacted": True}]}
@@ -800,8 +905,9 @@ def selftest(ctx: Ctx) -> bool:
         print("selftest: history judge gave", hb)
         return False
     ok = ub == {1: {("header-list", "-", "leak")}, 2: {("header-list", "-", "over-redacted")},
-                3: {("cookie-last-semicolon-space", "-", "leak")}} and \
-        rb == {1: {("user-header", "vcr", "leak", 0)}, 2: {("user-header", "curl", "missing", 0), ("user-header", "junit", "missing", 0)}}
+                3: {("cookie-last-semicolon-space", "-", "leak")}, 6: {("userinfo-curl-api", "-", "leak")}} and \
+        rb == {1: {("user-header", "vcr", "leak", 0)}, 2: {("user-header", "curl", "missing", 0), ("user-header", "junit", "missing", 0)},
+               3: {("user-header", "har", "leak", 0)}}
     if not ok:
         print("selftest: judge gave", ub, rb)
     return ok
